@@ -1077,6 +1077,7 @@ func (f *fa) deferred(c *ast.CallExpr, st *state) {
 
 func (f *fa) site(u *unit, c *ast.CallExpr, held lset) {
 	_, line := f.line(c.Pos())
+	f.orderEdges(u, held, line)
 	// translate the locks of the receiver object to the callee's receiver
 	h := lset{m: lockset{}}
 	var rootKey string
